@@ -17,6 +17,12 @@ def eval_test(e, atom):
         v = eval_test(e.operand, atom)
         return None if v is None else (not v)
     if isinstance(e, ast.Constant): return bool(e.value)
+    if isinstance(e, ast.Compare) and len(e.ops) == 1 and isinstance(e.ops[0], (ast.Eq, ast.NotEq)) and \
+            all(isinstance(x, (ast.Compare, ast.BoolOp)) or (isinstance(x, ast.UnaryOp) and isinstance(x.op, ast.Not)) for x in (e.left, e.comparators[0])):
+        # (a >= 0) == (b >= 0): equality of two conditions
+        l, r = eval_test(e.left, atom), eval_test(e.comparators[0], atom)
+        if l is None or r is None: return None
+        return (l == r) if isinstance(e.ops[0], ast.Eq) else (l != r)
     if isinstance(e, ast.Compare) and len(e.ops) == 1 and isinstance(e.comparators[0], ast.Constant) and e.comparators[0].value is None:
         v = atom(norm(e.left) + ' is None', e)
         if v is None:
@@ -34,8 +40,10 @@ def resolve_flags(fn_node, test, depth=2, attrs=False):
     for st in ast.walk(fn_node):
         if isinstance(st, ast.Assign) and len(st.targets) == 1 and isinstance(st.targets[0], ast.Name):
             defs.setdefault(st.targets[0].id, []).append(st.value)
+    augmented = {st.target.id for st in ast.walk(fn_node) if isinstance(st, ast.AugAssign) and isinstance(st.target, ast.Name)}
     def rec(e, d):
-        if isinstance(e, ast.Name) and d > 0 and len(defs.get(e.id, ())) == 1 and isinstance(defs[e.id][0], (ast.Compare, ast.BoolOp, ast.UnaryOp, ast.Call, ast.Constant)):
+        if isinstance(e, ast.Name) and d > 0 and len(defs.get(e.id, ())) == 1 and (isinstance(defs[e.id][0], (ast.Compare, ast.BoolOp, ast.UnaryOp, ast.Call, ast.Constant)) or
+                (isinstance(defs[e.id][0], ast.BinOp) and isinstance(defs[e.id][0].op, ast.BitAnd))) and e.id not in augmented:
             return rec(copy.deepcopy(defs[e.id][0]), d - 1)
         if attrs and isinstance(e, ast.Name) and len(defs.get(e.id, ())) == 1 and isinstance(defs[e.id][0], ast.Attribute):
             return copy.deepcopy(defs[e.id][0])          # local alias of an attribute read: `status = obj._status_`
@@ -60,26 +68,49 @@ def equivalent_to_atom(fn_node, test, atom_text):
     return eval_test(t, mk(True)) is True and eval_test(t, mk(False)) is False
 
 
+def scenario_edges(g, fn_node, atom, resolve=True):
+    """edge filter for CFG.reach: a branch edge is kept unless the test (local flags resolved) evaluates, three-valued under `atom`, to the
+    opposite outcome"""
+    cache = {}
+    def eo(x, y, lab):
+        n_ = g.nodes[x]
+        if n_.kind != 'test' or lab not in ('T', 'F'): return True
+        if x not in cache:
+            t = resolve_flags(fn_node, n_.ast) if resolve else n_.ast
+            cache[x] = eval_test(t, atom)
+        v = cache[x]
+        return v is None or v == (lab == 'T')
+    return eo
+
+
 class Machine:
     """vars: ordered names.  A state is a tuple of values.
     effect(node, env) -> None (no effect) or dict with optional keys:
         'normal': list of {var: value} updates (nondeterministic alternatives) applied on non-exceptional out-edges
         'exc':    list of updates applied on the exceptional out-edge (default: unchanged)
     atom(text, env) -> True/False/None for test atoms"""
-    def __init__(self, g, vars_, effect, atom):
-        self.g, self.vars, self.effect, self.atom = g, list(vars_), effect, atom
+    def __init__(self, g, vars_, effect, atom, resolve=False):
+        # resolve=True: local flags in tests are replaced by the condition they were assigned (only sound when the flag's operands cannot change
+        # between the assignment and the test -- not for snapshots such as SQLiteProvider.commit's `in_transaction`)
+        self.g, self.vars, self.effect, self.atom, self.resolve = g, list(vars_), effect, atom, resolve
 
     def env(self, st): return dict(zip(self.vars, st))
     def st(self, env): return tuple(env[v] for v in self.vars)
 
     def run(self, init_envs, start=None):
         g = self.g
+        resolved = {}
         def transfer(n, states, lab):
             out = set()
             for s in states:
                 env = self.env(s)
                 if n.kind == 'test' and lab in ('T', 'F'):
-                    v = eval_test(n.ast, lambda t, node: self.atom(t, env))
+                    if n.id not in resolved:
+                        # flags that are not tracked variables of this machine are replaced by the condition they were assigned
+                        t_ = resolve_flags(g.fn_node, n.ast) if self.resolve and getattr(g, 'fn_node', None) is not None else n.ast
+                        if any(isinstance(x, ast.Name) and x.id in self.vars for x in ast.walk(n.ast)): t_ = n.ast
+                        resolved[n.id] = t_
+                    v = eval_test(resolved[n.id], lambda t, node: self.atom(t, env))
                     if v is not None and v != (lab == 'T'): continue
                     out.add(s); continue
                 if n.kind == 'stmt' and isinstance(n.ast, ast.Assert) and lab != 'exc':
